@@ -271,7 +271,7 @@ class Teardown:
                 eng.violate("TS-1", "uninit-mark-on-live", "%s is marked uninit while not known dead (strong-state %s)" % (show(b), "".join(sorted(st.strong(b)))), ev.b, st)
             return st
         # weak counter
-        st = rem(st, lambda f: f[0] == "wz" and (f[1] == b or not st.distinct(f[1], b)))
+        st = rem(st, lambda f: f[0] in ("wz", "wnz") and (f[1] == b or not st.distinct(f[1], b)))
         if ev.cls == "dec":
             self.sites["release"].add(ev.b)
             eng.obl("TS-3", "release", ev.b)
@@ -288,6 +288,8 @@ class Teardown:
                 for fl in st.flags:
                     if (fl[0] == "mv" and fl[1] == b) or (fl[0] == "held" and fl[2] == b):
                         f = fl[2] if fl[0] == "mv" else fl[3]
+                        if f == "value" and self.entry_kind == "api":
+                            continue      # a handle-consuming API hands the value on to its caller (TS-5 checks that it does)
                         eng.violate("TS-3", "release-before-destroy:%s" % f, "the implicit weak of %s is released while its moved-out `%s` has not been destroyed yet" % (show(b), f), ev.b, st)
                 if self.entry_kind == "rc_drop" and not is_elem_box(b):
                     for f in ("value", "links"):
@@ -302,6 +304,8 @@ class Teardown:
             from interp import classes_for
             if classes_for(op, c, truth) == frozenset("Z"):      # `== 0`, `< 1`, `!(> 0)`, `0 == ..` ...
                 return add(st, ("wz", box))
+            if "Z" not in classes_for(op, c, truth):
+                return add(st, ("wnz", box))      # other weak references remain: the last of them frees the allocation
         return None
 
     def on_free(self, eng, ev, st):
